@@ -115,7 +115,7 @@ class Recorder:
         def nh(h):
             try:
                 r = self.o3(h)
-            except OSError:
+            except (OSError, UnicodeError):
                 self.resolves[h] = False
                 raise
             self.resolves[h] = True
@@ -688,7 +688,8 @@ def _gen_server(rng):
 
 
 # ---- responses
-LOCS_BAD = [None, b"", b"http://h:99999/x", b"http://[::1/x", b"http://h:ab/x", b"http://nosuch.invalid/x", b"http://[::1]/x", b"//h\xe9.invalid/",
+LOCS_BAD = [None, b"", b"////h:99999/", b"http://a..b/", b"////other/x", b"http://127.0.0.1:8080//evil:99999/", b"http://" + b"a" * 70 + b".com/",
+            b"http://.x/", b"////", b"//h:99999/x", b"http://xn--/", b"http://\xe9..\xff/", b"http://h:99999/x", b"http://[::1/x", b"http://h:ab/x", b"http://nosuch.invalid/x", b"http://[::1]/x", b"//h\xe9.invalid/",
             b"http://%5B/x", b"http://h:%39%39%39%39%39/", b"http://[fe80::abcd]/x", b"http://[zz]/"]
 LOCS_OK = [b"/y", b"y?a=1", b"http://127.0.0.1:8080/z", b"/a%20b?x=%5B", b"?q", b"#f"]
 
@@ -893,6 +894,11 @@ def directed():
         C(b"HTTP/1.1 302 Found\r\nLocation: http://h:ab/x\r\nContent-Length: 0\r\n\r\n", edits=["redirect-bad"], expect="error"),
         C(b"HTTP/1.1 302 Found\r\nLocation: http://nosuch.invalid/x\r\nContent-Length: 0\r\n\r\n", edits=["redirect-bad"], expect="error"),
         C(b"HTTP/1.1 302 Found\r\nLocation: /y\r\nContent-Length: 0\r\n\r\n" + OK, edits=["redirect"], expect="ok"),    # relative Location
+        C(b"HTTP/1.1 302 Found\r\nLocation: ////h:99999/\r\nContent-Length: 0\r\n\r\n" + OK, nreq=2, edits=["redirect-bad"], expect="error"),   # path //h:99999/ re-split by build
+        C(b"HTTP/1.1 302 Found\r\nLocation: http://a..b/\r\nContent-Length: 0\r\n\r\n" + OK, nreq=2, edits=["redirect-bad"], expect="error"),   # IDNA: empty label
+        C(b"HTTP/1.1 302 Found\r\nLocation: http://" + b"a" * 70 + b".com/\r\nContent-Length: 0\r\n\r\n", edits=["redirect-bad"], expect="error"),
+        C(b"HTTP/1.1 302 Found\r\nLocation: http://127.0.0.1:8080//evil:99999/\r\nContent-Length: 0\r\n\r\n", edits=["redirect-bad"], expect="error"),
+        C(b"HTTP/1.1 302 Found\r\nLocation: ///x\r\nContent-Length: 0\r\n\r\n" + OK, edits=["redirect"], expect="ok"),
         C(b"HTTP/1.1 302 Found\r\nLocation: http://h:ab/x\r\nContent-Length: 0\r\n\r\n" + OK, nreq=2, edits=["redirect-bad"]),  # next response still delivered
         # a redirected HEAD is re-sent as HEAD: its reply has no body even without Content-Length
         C(b"HTTP/1.1 303 See Other\r\nLocation: #f\r\n\r\nHTTP/1.1 200 \xe9\r\n\r\n", nreq=2, method="HEAD", edits=["redirect"], expect="ok", nvalid=1),
